@@ -209,5 +209,18 @@ Proof.
     + eexists. eapply S_check; eauto.
     + eexists. eapply S_micro; eauto.
 Qed.
+
+(* a thread that is not inside any synchronized call - in particular after a call of its own returned OR raised - neither
+   holds the lock nor is recorded as owner: an exception cannot leave the oracle locked *)
+Theorem idle_thread_holds_nothing c t : reach c -> stk c t = [] -> lock c <> Some t /\ owner c <> Some t.
+Proof.
+  intros Hr Hs. pose proof (inv_reach _ Hr t) as Ht. rewrite Hs in Ht. simpl in Ht. destruct Ht as [Hl Ho].
+  split; intros E; [rewrite E in Hl|rewrite E in Ho]; simpl in *; now rewrite Nat.eqb_refl in *.
+Qed.
+(* a re-entrant call (a frame on top of the thread's own body frame) never waits for the lock *)
+Theorem reentrant_never_waits c t f r : reach c -> stk c t = f :: {| fpc := PBody; need := true |} :: r -> fpc f <> PAcq.
+Proof.
+  intros Hr Hs. pose proof (inv_reach _ Hr t) as Ht. rewrite Hs in Ht. simpl in Ht. destruct Ht as ([->| ->] & _); discriminate.
+Qed.
 Print Assumptions mutual_exclusion.
 Print Assumptions holder_can_step.
